@@ -4,6 +4,12 @@
 use crate::spec::*;
 use crate::values::*;
 
+/// every fifth field's helper functions take a (needless) generic argument, written the way a type
+/// would carry it in the quoted spelling of the path
+fn generic_helper(k: usize) -> bool {
+    k % 5 == 2
+}
+
 /// `darling`, now and then spelled as a raw identifier: the same attribute
 fn attr_word(k: usize) -> &'static str {
     if k % 7 == 3 {
@@ -23,6 +29,8 @@ fn field_attr(recvs: &[Recv], scope: &str, f: &Field, k: usize) -> String {
         Def::None => {}
         Def::Trait => opts.push("default".into()),
         Def::Func if hn.starts_with("own_") => opts.push(if k % 2 == 0 { format!("default = \"{hn}\"") } else { format!("default = {hn}") }),
+        // (a quoted path may carry generic arguments the way a type does: `"f<0>"`)
+        Def::Func if generic_helper(k) => opts.push(format!("default = \"fdef_{}_{}<0>\"", scope, hn)),
         Def::Func => opts.push(if k % 2 == 0 { format!("default = \"fdef_{}_{}\"", scope, hn) } else { format!("default = fdef_{}_{}", scope, hn) }),
     }
     if f.skip {
@@ -51,6 +59,7 @@ fn field_attr(recvs: &[Recv], scope: &str, f: &Field, k: usize) -> String {
     }
     match f.post {
         Post::None => {}
+        Post::Map if generic_helper(k) => opts.push(format!("map = \"map_{}_{}<0>\"", scope, hn)),
         Post::Map => opts.push(if k % 2 == 0 { format!("map = \"map_{}_{}\"", scope, hn) } else { format!("map = map_{}_{}", scope, hn) }),
         Post::AndThen => opts.push(format!("and_then = andthen_{}_{}", scope, hn)),
     }
@@ -69,10 +78,11 @@ fn field_helpers(recvs: &[Recv], scope: &str, f: &Field, k: usize, out: &mut Str
     let hn = f.rust.trim_start_matches("r#").trim_start_matches('_');
     let elem_ty = rust_ty(recvs, &f.ty);
     let full_ty = field_full_ty(recvs, f);
+    let gp = if generic_helper(k) { "<const N: usize>" } else { "" };
     if f.default == Def::Func && hn.starts_with("own_") {
         out.push_str(&format!("fn {hn}() -> {full_ty} {{ {} }}\n", field_sentinel_expr(recvs, f, Tag::FieldDefault, k)));
     } else if f.default == Def::Func {
-        out.push_str(&format!("fn fdef_{}_{}() -> {full_ty} {{ {} }}\n", scope, hn, field_sentinel_expr(recvs, f, Tag::FieldDefault, k)));
+        out.push_str(&format!("fn fdef_{}_{}{gp}() -> {full_ty} {{ {} }}\n", scope, hn, field_sentinel_expr(recvs, f, Tag::FieldDefault, k)));
     }
     if let (Ty::Opt(inner), With::Path) = (&f.ty, f.with) {
         if let Ty::Sc(sc) = **inner {
@@ -96,7 +106,7 @@ fn field_helpers(recvs: &[Recv], scope: &str, f: &Field, k: usize, out: &mut Str
             ));
         }
         match f.post {
-            Post::Map => out.push_str(&format!("fn map_{}_{}(v: {elem_ty}) -> {elem_ty} {{ {} }}\n", scope, hn, map_body(sc))),
+            Post::Map => out.push_str(&format!("fn map_{}_{}{gp}(v: {elem_ty}) -> {elem_ty} {{ {} }}\n", scope, hn, map_body(sc))),
             Post::AndThen => out.push_str(&format!(
                 "fn andthen_{}_{}(v: {elem_ty}) -> ::darling::Result<{elem_ty}> {{ if {} {{ Err(::darling::Error::custom(\"rejected by and_then\")) }} else {{ Ok({}) }} }}\n",
                 scope,
@@ -108,7 +118,7 @@ fn field_helpers(recvs: &[Recv], scope: &str, f: &Field, k: usize, out: &mut Str
         }
     } else if f.flatten && f.post == Post::Map {
         // a transform on the flatten member: wraps the nested receiver's anchor, visible in the dump
-        out.push_str(&format!("fn map_{}_{}(v: {full_ty}) -> {full_ty} {{ flatten_mark(v) }}\n", scope, hn));
+        out.push_str(&format!("fn map_{}_{}{gp}(v: {full_ty}) -> {full_ty} {{ flatten_mark(v) }}\n", scope, hn));
     } else if f.flatten && f.post == Post::AndThen {
         out.push_str(&format!(
             "fn andthen_{}_{}(v: {full_ty}) -> ::darling::Result<{full_ty}> {{ if flatten_rejects(&v) {{ Err(::darling::Error::custom(\"rejected by flatten and_then\")) }} else {{ Ok(flatten_mark(v)) }} }}\n",
